@@ -37,12 +37,6 @@ pub async fn run_case(c: Case) -> Result<CaseInfo, Failure> {
         if w.ended() {
             break;
         }
-        // the first send() of a stream carries its readiness signal: cancelling it makes the stream unusable (not judged here)
-        if let Op::DropFut(k) = op {
-            if w.live_idx(*k).is_some_and(|i| w.slots[i].chunk_of.is_some()) {
-                continue;
-            }
-        }
         // at most one streamed publish per history (a second one is refused while the first owes payload)
         if matches!(op, Op::StreamStart { .. }) && !w.streams.is_empty() {
             continue;
